@@ -547,7 +547,7 @@ class ObjectBase(EntityContainer):
                     values = child.workspace.fetch_values(child)
                 if values is None:
                     continue
-                child.values = np.delete(values, indices, axis=0)
+                child.values = np.delete(np.atleast_1d(values), indices, axis=0)
                 if clear_cache:
                     clear_array_attributes(child)
 
